@@ -219,7 +219,15 @@ def check(pid, tier, seed):
     bres = common.run_harness(lexe, bs)
     bexecs = {x: _lock.p_events(bres.get(x, [])) for x in bcf}
     bacc, brej, btst = tracecheck.validate(_lock.SPEC, "RWLockTrace.tla", "RWLockTrace_hold.cfg", bexecs)
-    log("[%s] lock busy periods: %d executions, %d rejected, TLC %.1fs" % (pid, len(bexecs), len(brej), btst["tlc_wall_s"]))
+    # ... and the crowd: 70-85 operations parked behind one at the same moment
+    cs, ccf = _lock.crowd_scripts(seed, "quick")
+    cres = common.run_harness(lexe, cs)
+    cexecs = {x: _lock.p_events(cres.get(x, [])) for x in ccf}
+    cacc, crej, ctst = tracecheck.validate(_lock.SPEC, "RWLockTrace.tla", "RWLockTrace_hold_wide.cfg", cexecs)
+    brej = dict(brej, **crej)
+    bcf = dict(bcf, **ccf)
+    bexecs = dict(bexecs, **cexecs)
+    log("[%s] lock busy periods and crowds: %d executions, %d rejected, TLC %.1fs" % (pid, len(bexecs), len(brej), btst["tlc_wall_s"] + ctst["tlc_wall_s"]))
     for x, info in brej.items():
         nx = info.get("next") or {}
         verdict.violation("concrouter[lock busy period]@%s(t=%s,k=%s)" % (nx.get("e"), nx.get("t"), nx.get("k")), {"matched": info["matched"], "next": nx},
@@ -255,7 +263,7 @@ def check(pid, tier, seed):
            "rule": "random programs (0-3 pre-subscribed observers, 2-4 threads, 1-3 operations each out of notify/subscribe/unsubscribe/shrink/exists/depth) under "
                    "seeded random/PCT schedules; distinct = distinct event sequences; executions_with_concurrent_deliveries counts those where two threads were "
                    "inside callbacks at once",
-           "executions_with_concurrent_deliveries": overlapping, "model_checks": mcs, "trace_validation": [tst, btst],
+           "executions_with_concurrent_deliveries": overlapping, "model_checks": mcs, "trace_validation": [tst, btst, ctst],
            "lock_busy_periods": {"executions": len(bexecs), "events": sum(len(e) for e in bexecs.values())}}
     rc = verdict.finish()
     common.write_evidence(pid, tier, seed, "model_checking", cov, ASSUMPTIONS, time.time() - t0, len(verdict.violations))
